@@ -517,10 +517,14 @@ integer_quotient(T x, Quantity<U, R> q) {
 //
 // Only defined whenever (R1{} % R2{}) is defined (i.e., for integral Reps), _and_
 // `CommonUnitT<U1, U2>` is also defined.  We convert to that common unit to perform the operation.
+//
+// Like every other mixed-type operation, we convert each input to the common unit _in the common
+// Rep_, so that a value which fits in the common type is not mangled by a narrower input Rep.
 template <typename U1, typename R1, typename U2, typename R2>
 constexpr auto operator%(Quantity<U1, R1> q1, Quantity<U2, R2> q2) {
     using U = CommonUnitT<U1, U2>;
-    return make_quantity<U>(q1.in(U{}) % q2.in(U{}));
+    using R = std::common_type_t<R1, R2>;
+    return make_quantity<U>(q1.template as<R>(U1{}).in(U{}) % q2.template as<R>(U2{}).in(U{}));
 }
 
 // Callsite-readable way to convert a `Quantity` to a raw number.
@@ -842,7 +846,8 @@ constexpr auto operator>=(QLike q1, Quantity<U, R> q2) -> decltype(as_quantity(q
 template <typename U1, typename R1, typename U2, typename R2>
 constexpr auto operator<=>(const Quantity<U1, R1> &lhs, const Quantity<U2, R2> &rhs) {
     using U = CommonUnitT<U1, U2>;
-    return lhs.in(U{}) <=> rhs.in(U{});
+    using R = std::common_type_t<R1, R2>;
+    return lhs.template as<R>(U1{}).in(U{}) <=> rhs.template as<R>(U2{}).in(U{});
 }
 #endif
 
